@@ -55,6 +55,16 @@ Proof.
   intros u v Hu _ Huv. apply Virial_monotone_when_nonneg; assumption.
 Qed.
 
+Lemma Virial_loading_increasing K A B C p q x y : Virial_bounds K A B C -> 0 < K -> 0 <= A -> 0 <= B -> 0 <= C ->
+  0 <= x -> 0 <= y ->
+  Virial_loading_spec K A B C p x -> Virial_loading_spec K A B C q y -> p < q -> x < y.
+Proof.
+  unfold Virial_loading_spec. intros HBd HK HA HB HC Hx Hy Ex Ey Hpq.
+  destruct (Rlt_le_dec x y) as [Hlt|Hle]; [exact Hlt|exfalso].
+  destruct (Req_dec y x) as [->|Hne]; [lra|].
+  assert (H := Virial_monotone_when_nonneg K A B C y x HBd HK HA HB HC). lra.
+Qed.
+
 Lemma Virial_root_unique_from_monotone K A B C p x y :
   (forall u v, 0 <= u -> u < v -> Virial_pressure K A B C u < Virial_pressure K A B C v) ->
   0 <= x -> 0 <= y ->
